@@ -209,6 +209,14 @@ std::string hex(const std::string& s) {
 	return o;
 }
 
+std::string unhex(const std::string& h) {
+	std::string o;
+	auto v = [](char c) { return c <= '9' ? c - '0' : (c | 32) - 'a' + 10; };
+	for (size_t i = 0; i + 1 < h.size(); i += 2)
+		o.push_back(static_cast<char>(v(h[i]) * 16 + v(h[i + 1])));
+	return o;
+}
+
 std::string str_trace(const std::vector<long>& t) {
 	std::ostringstream os;
 	for (size_t i = 0; i < t.size(); ++i)
@@ -874,6 +882,28 @@ std::string do_resave(const Case& c) {
 	// loose=k order=rev|fwd|mix: the file under test is the sample plus a chain of k unreferenced nodes (each lists the
 	// previous one as its child), stored child-before-parent (rev), parent-before-child (fwd) or alternating (mix),
 	// written raw and loaded again - a loadable file whose pruning needs several deletions that enable each other
+	// tex=<hex>: the file under test is the sample with this (messy) path in the first texture slots of every shape,
+	// written raw and loaded again (Load cleans texture paths: the cleaned form must be a fixed point)
+	if (!c.get("tex").empty()) {
+		std::string path = unhex(c.get("tex"));
+		for (auto shape : nif.GetShapes())
+			for (uint32_t slot = 0; slot < 2; ++slot) {
+				std::string p = path;
+				nif.SetTextureSlot(shape, p, slot);
+			}
+		NifSaveOptions rawo;
+		rawo.optimize = false;
+		rawo.sortBlocks = false;
+		std::stringstream ss;
+		if (nif.Save(ss, rawo) != 0)
+			return os.str() + " texsave=FAIL";
+		std::stringstream in(ss.str());
+		nif.Clear();
+		int l2 = nif.Load(in);
+		os << " texload=" << l2;
+		if (l2 != 0)
+			return os.str();
+	}
 	if (!c.get("loose").empty()) {
 		long k = c.geti("loose");
 		NiHeader& hdr = nif.GetHeader();
